@@ -414,6 +414,9 @@ def pred_tucker_identity(X, core, factors):
     return None
 
 
+TR_LITERAL = {}   # how often the literal requested-rank condition of C09_tensor_ring_exact_requested_ranks held on the judged tensor_ring runs
+
+
 def pred_tr(X, rank, mode, factors, sufficient, rel=None, ub_ok=True):
     n = X.ndim
     REL = globals()["REL"] if rel is None else rel
@@ -447,6 +450,18 @@ def pred_tr(X, rank, mode, factors, sufficient, rel=None, ub_ok=True):
         return "tensor_ring: reconstruction is not finite"
     if sufficient and err > REL * nx:
         return f"tensor_ring: not exact at sufficient rank: error {err:.3e} (relative {err / max(nx, 1e-300):.3e}), requested {req}, start mode {mode}"
+    # transcription of C09_tensor_ring_exact_requested_ranks (condition on X and the REQUEST only): with input and request rotated to the
+    # start mode, rank(first unfolding) <= r0 r1 and rank(k-th sequential unfolding) * r0 <= requested r_{k+1}  =>  exact
+    Xr_ = np.transpose(Xf, list(range(m_, n)) + list(range(m_)))
+    if nx > 0 and all(s_ > 0 for s_ in shp_r):
+        lit = num_rank(sv(Xr_.reshape(shp_r[0], -1))) <= req_r[0] * req_r[1] and all(
+            num_rank(sv(Xr_.reshape(int(np.prod(shp_r[:k + 1])), -1))) * req_r[0] <= req_r[k + 1] for k in range(1, n - 1))
+        TR_LITERAL["holds" if lit else "fails"] = TR_LITERAL.get("holds" if lit else "fails", 0) + 1
+        if lit and not sufficient:
+            TR_LITERAL["holds_beyond_generator_label"] = TR_LITERAL.get("holds_beyond_generator_label", 0) + 1
+        if lit and ub_ok and err > REL * nx:   # (randomized_svd: only when every range finder is exact, like the upper bound)
+            return (f"tensor_ring: not exact although every requested rank meets the literal rank condition (rank of the first unfolding <= r0 r1, "
+                    f"r0 * rank of the k-th sequential unfolding <= r_(k+1)): error {err:.3e} (relative {err / max(nx, 1e-300):.3e}), requested {req}, start mode {mode}")
     # cutting the ring between bonds a and b: the unfolding (modes a..b-1 | rest) of the result has rank <= r_a r_b
     lb = 0.0
     for a in range(n):
@@ -897,6 +912,39 @@ def gen_predicate_cases(tier, rng, nrng):
                 if r * r <= min(rot[0], int(np.prod(rot[1:]))):
                     rank, sufficient = r, False
             yield kind, X, rank, {"mode": mode}, {"cls": cls, "sufficient": sufficient}
+    for item in gen_ttm3_cases(tier, rng, nrng, False):
+        yield item
+
+
+def gen_ttm3_cases(tier, rng, nrng, small):
+    """tensor_train_matrix with THREE mode pairs (order 6; the interleaving permutation (0,3,1,4,2,5) differs from every order-4 one) and
+    non-square pairs; small=True: <= 40 entries with dyadic values for the correspondence, else mode sizes 1-3 for the predicates"""
+    N = (8 if tier == "quick" else 48) if small else (14 if tier == "quick" else 120)
+    for i in range(N):
+        while True:
+            if small:
+                shape = tuple(rng.choice([1, 2, 2]) for _ in range(6))
+                if rng.random() < 0.3:
+                    j = rng.randrange(6); shape = shape[:j] + (3,) + shape[j + 1:]
+            else:
+                shape = tuple(rng.choice([1, 2, 2, 3]) for _ in range(6))
+            size = int(np.prod(shape))
+            if (size <= 40 or not small) and size >= 4:
+                break
+        cls = CLASSES[i % len(CLASSES)]
+        X = make_tensor(cls, shape, nrng, rng)
+        if small and X.dtype.kind == "f":
+            X = np.round(X * 16) / 16
+            if not X.any():
+                X.flat[0] = 1.0
+        style = rng.random()
+        if style < 0.15:
+            rank = rng.choice([1, 2, 3, 7])
+        elif style < 0.4:
+            rank = [1, 200, 200, 1]
+        else:
+            rank = [1] + [rng.choice([1, 2, 3, 4, 9]) for _ in range(2)] + [1]
+        yield "ttm", X, rank, {}, {"cls": cls, "valid": True, "ttm3": True}
 
 
 def small_shapes(tier):
@@ -911,7 +959,7 @@ def small_shapes(tier):
 def gen_corr_cases(tier, rng, nrng):
     """small cases for the model <-> implementation comparison inside Coq"""
     shapes = small_shapes(tier)
-    N = 170 if tier == "quick" else 1500
+    N = 170 if tier == "quick" else 1000
     # order-1 inputs: every function raises (tensor_train: the final unpacking of a 1-D remainder; tensor_ring / tucker: the result
     # classes need at least two factors; tensor_train_matrix: odd order) -- the model must answer Err (outside the property's orders 2-5)
     for shape, kind, rank, extra in [((3,), "tt", [1, 1], {}), ((2,), "tt", 2, {}), ((3,), "tr", [1, 1], {"mode": 0}), ((1,), "tr", 1, {"mode": 0}),
@@ -925,7 +973,7 @@ def gen_corr_cases(tier, rng, nrng):
         rank = [rng.choice([1, 2]) for _ in shape]
         yield "tucker", X, rank, {"n_iter_max": rng.choice([2, 3]), "tol": 0, "init": "svd"}, {"cls": "generic", "valid": True}
     # tensor_ring with ONE int >= 2 for every bond: valid only when the first unfolding has min dimension >= 4
-    for i in range(6 if tier == "quick" else 40):
+    for i in range(6 if tier == "quick" else 30):
         shape, modes = rng.choice([((4, 2, 2), [0]), ((2, 4, 2), [1]), ((4, 4), [0, 1]), ((2, 2, 4), [2]), ((4, 2, 3), [0]), ((2, 2, 2, 4), [3])])
         cls = CLASSES[i % len(CLASSES)]
         X = make_tensor(cls, shape, nrng, rng)
@@ -985,7 +1033,7 @@ def gen_corr_cases(tier, rng, nrng):
 def gen_sym_corr_cases(tier, rng, nrng, method="symeig_svd"):
     """small cases for the model <-> implementation comparison of svd="symeig_svd" (Model/SvdDecompSymeig.v inside the generic model)"""
     shapes = [s_ for s_ in small_shapes(tier) if int(np.prod(s_)) <= 24]
-    N = (32 if tier == "quick" else 320) if method == "symeig_svd" else (14 if tier == "quick" else 200)
+    N = (32 if tier == "quick" else 220) if method == "symeig_svd" else (14 if tier == "quick" else 130)
     cl = ["generic", "integer", "generic", "sparseint", "lowtt", "generic", "intlow", "deficient", "lowml", "negperm"]
     for i in range(N):
         shape = shapes[rng.randrange(len(shapes))]
@@ -1048,7 +1096,7 @@ def gen_sequences(tier, rng, nrng, small):
     """yields (kind, style, [X_1, X_2, ...], rank, extra, info): ONE rank request object / ONE decomposition object used for
     several tensors of the same order, typically a small tensor (whose realised bonds are clipped below the request) before a
     big one that needs the whole request"""
-    N = (12 if tier == "quick" else 90) if small else (40 if tier == "quick" else 420)
+    N = (12 if tier == "quick" else 70) if small else (40 if tier == "quick" else 420)
     small_shapes_by_kind = {"tt": [(3, 3, 3), (2, 3, 3), (3, 2, 3), (2, 2, 2, 2), (4, 4), (3, 3), (2, 2, 3), (3, 1, 3), (2, 2, 2), (2, 3, 2, 2)],
                             "ttm": [(2, 2, 2, 2), (2, 3, 2, 2), (3, 2, 3, 2), (2, 2, 3, 3), (3, 3, 2, 2)],
                             "tr": [(4, 2, 2), (3, 3, 3), (2, 2, 2, 2), (3, 2, 3), (2, 4, 3), (4, 3, 2)],
@@ -1180,7 +1228,7 @@ def describe_seq(kind, style, Xs, step, rank, extra, info):
 def gen_unit_mode_cases(tier, rng, nrng, small):
     """size-1 INTERIOR modes with a requested bond that DROPS across them: (a, 1, b) with request (1, r1, r2 < r1, 1) -- the bond after
     the size-1 mode must still be clipped to the request (returned ranks = realised_tt_rank) and the lower bound must hold"""
-    N = (12 if tier == "quick" else 70) if small else (35 if tier == "quick" else 300)
+    N = (12 if tier == "quick" else 50) if small else (35 if tier == "quick" else 300)
     for i in range(N):
         kind = ["tt", "tr", "tr", "ttm", "tt"][i % 5]
         order = rng.choice([3, 3, 4]) if not small else rng.choice([3, 3, 3, 4])
@@ -1729,6 +1777,7 @@ def run(chk):
     nrng = np.random.RandomState(rng.randrange(2 ** 31))
     del STRICT_CASES[:]
     FULLREQ.clear()
+    TR_LITERAL.clear()
     chk.build_proofs()
     # common.print_assumptions also captures the header line "Axioms:" that Coq prints before the list; it is not an axiom
     chk.axioms = {k: [a for a in v if a != "Axioms"] for k, v in (getattr(chk, "axioms", None) or {}).items()}
@@ -1750,7 +1799,7 @@ def run(chk):
         for (step, X, st, v, calls, snap) in run_sequence(kind, style, Xs, rank, extra):
             seq_items.append((kind, X, rank, extra, dict(info, cls="sequence", _pre=(st, v, calls, snap), _seq=(style, Xs, step))))
             chk.hist("corr_sequence_step", f"{kind}/{style}")
-    for (kind, X, rank, extra, info) in (load_corpus() + list(gen_corr_cases(tier, rng, nrng)) + list(gen_unit_mode_cases(tier, rng, nrng, True)) + seq_items
+    for (kind, X, rank, extra, info) in (load_corpus() + list(gen_corr_cases(tier, rng, nrng)) + list(gen_unit_mode_cases(tier, rng, nrng, True)) + seq_items + list(gen_ttm3_cases(tier, rng, nrng, True))
                                          + list(gen_sym_corr_cases(tier, rng, nrng)) + list(gen_sym_corr_cases(tier, rng, nrng, "randomized_svd"))):
         if X.size > 40:
             continue
@@ -1795,6 +1844,8 @@ def run(chk):
             else:
                 chk.finding(EP[kind], describe(kind, X, rank, extra, info), msg, "C09_bounds")
         chk.hist("corr_class", info["cls"])
+        if info.get("ttm3"):
+            chk.hist("corr_ttm_three_mode_pairs", st)
         if kind == "tt" and st == "ok":
             check_validate_strict(chk, X, rank, v)
         if sign_ambiguous(calls, LAST_KEPT):
@@ -1901,6 +1952,8 @@ def run(chk):
             msg = predicate(kind, X, rank, extra, st, v, info, calls)
             chk.count(key=("pred", kind, X.shape, str(rank), tuple(sorted(extra.items())), info["cls"]), nontrivial=X.size > 1)
             chk.hist("pred_function", kind); chk.hist("pred_order", X.ndim); chk.hist("pred_class", info["cls"])
+            if info.get("ttm3"):
+                chk.hist("pred_ttm_three_mode_pairs", st)
             if msg:
                 chk.finding(EP[kind], describe(kind, X, rank, extra, info), msg, "C09_bounds")
             if kind == "tt" and st == "ok":
@@ -1968,6 +2021,7 @@ def run(chk):
             shape_, rank_, mode_ = fr_meta[i]
             chk.disagreement("corr:C09 sufficient-rank label (harness tr_rank_for(sufficient=True) vs tr_full_requestb, the premise of C09_tensor_ring_exact_full_request)",
                              {"function": "tr", "shape": list(shape_), "rank": list(rank_), "options": {"mode": mode_}})
+    chk.cov["tensor_ring_literal_requested_rank_condition"] = dict(TR_LITERAL)
     if resid:
         chk.cov["oracle_residuals"] = {"svd_calls_taped": len(resid), "max_relative_residual_U_S_V_minus_M": max(resid),
                                        "max_orthonormality_residual_UtU_VVt_minus_I": max(orth) if orth else 0.0}
@@ -1980,7 +2034,9 @@ def run(chk):
                        "the mode sizes plus invalid requests; model over Q fed with the taped LAPACK answers; U-derived factors exact, products |d| <= 1e-9 + 1e-9(|a|+|b|). "
                        "symeig correspondence: the same functions with svd='symeig_svd' on tensors of <= 24 entries, model = transcription of symeig_svd over Q fed with eigh's taped answers, "
                        "all factors |d| <= 1e-7 + 1e-7(|a|+|b|); "
-                       "predicates (tests): order 2-5, mode sizes 1-7, same classes, default options; "
+                       "tensor_train_matrix with three mode pairs (order 6, <= 40 entries) in the correspondence and (mode sizes 1-3) in the predicates; "
+                       "predicates (tests): order 2-5, mode sizes 1-7, same classes, default options; tensor_ring additionally judged exact whenever the literal "
+                       "requested-rank condition of C09_tensor_ring_exact_requested_ranks holds numerically; "
                        "svd-method stream (tests): svd in {truncated_svd, symeig_svd, randomized_svd} x the four decompositions x low-rank / rank-deficient / generic inputs "
                        "x over-requested / exactly sufficient / truncating ranks (order 2-4, mode sizes 1-7; no exception, finite, ranks respected, exact at sufficient rank, bounds; "
                        "symeig_svd judged at 1e-6 relative, randomized_svd's upper bound only when every range finder is exact); "
